@@ -71,6 +71,11 @@ def vector_size_invariant(prog, cls, field):
     """constant K such that every constructor of cls leaves field with exactly K elements (resize(K),
     a sized member initialiser, delegation to such a constructor, or - in a copy constructor - a copy
     of the source's same member) and no other function of cls changes the size of field; else None"""
+    for fl in prog.classes.get(cls, {}).get('fields', []):
+        if fl['name'] == field:
+            am = re.match(r'^std::array<.*, (\d+)>$', fl['type']) or re.match(r'^[\w: ]+\[(\d+)\]$', fl['type'])
+            if am:
+                return int(am.group(1))      # a fixed-size array member: its size is part of the type
     ctors = [f for f in prog.repo_funcs() if f.cls == cls and f.kind == 'ctor' and not f.implicit and not f.rec.get('move')]
     if not [c for c in ctors if not c.rec.get('copy')]:
         return None
@@ -235,6 +240,12 @@ def header_reader_rule(prog, res, rule='header-read', int_scale_ok=False):
         for d in got:
             dest = d.get('dest') or ''
             m = re.match(r'^this\.(\w+)', dest)
+            if not m and not re.match(r'^arg\d', dest) and not dest.startswith('copy('):
+                und_ = 'value goes to %s on its way to %s: an intermediate the rule does not follow' % (dest or 'a temporary', fld['member'])
+                bad = None
+                res.undecided(rule, inst, d['where'], und_ + ' [shape not read by the rule]', function=f.sig, expr=inst)
+                got = []
+                break
             if not m or m.group(1) != fld['member']:
                 bad = 'value is stored to %s, the field is %s' % (dest, fld['member'])
             elif fld['type'] == 'u' and d['sign'] != 'u':
@@ -258,7 +269,7 @@ def header_reader_rule(prog, res, rule='header-read', int_scale_ok=False):
                 break
         if bad:
             res.viol(rule, inst, got[0]['where'], bad, function=f.sig, expr=inst, facts={'cite': fld['cite']})
-        else:
+        elif got:
             res.ok(rule, inst, got[0]['where'], '%d byte(s) at offset %d -> %s (%s)' % (total, want_off, fld['member'], fld['type']), function=f.sig, expr=inst)
     if ii != len(items):
         res.viol(rule, 'header.tail', items[ii]['where'], 'reader consumes bytes beyond the 512-byte header', function=f.sig, expr='tail')
@@ -1010,7 +1021,12 @@ class RChecker(Checker):
             self.bad(slot, d['where'], 'field is %s byte(s) wide, %s are read' % (width, pshow(d.get('width'))), facts={'cite': cite})
             return d
         if dest is not None and d.get('dest') != dest:
-            self.bad(slot, d['where'], 'value is stored to %s, expected %s' % (d.get('dest'), dest), facts={'cite': cite})
+            got_d = d.get('dest') or ''
+            if got_d.startswith('this.') or re.match(r'^arg\d', got_d) or got_d.startswith('copy('):
+                self.bad(slot, d['where'], 'value is stored to %s, expected %s' % (d.get('dest'), dest), facts={'cite': cite})
+            else:
+                # a local / a returned value / an argument of a call: the value travels through an intermediate the rule does not follow
+                self.shape(slot, d['where'], 'value goes to %s on its way; expected it to be stored to %s' % (d.get('dest'), dest))
             return d
         if post is not None:
             got = [x for x in (d.get('post') or []) if x[0] != 'cast' or (x[2] or 64) < 32]
@@ -1922,8 +1938,8 @@ def frame_writer_rule(prog, res, rule='frame-write'):
 def copy_completeness_rule(prog, res, rule='copy-complete'):
     n = 0
     for f in prog.repo_funcs():
-        if f.kind != 'ctor' or not f.rec.get('copy') or f.implicit:
-            continue
+        if f.kind != 'ctor' or not f.rec.get('copy') or f.implicit or f.rec.get('defaulted'):
+            continue      # an implicit or `= default` copy constructor copies member by member
         cls = prog.classes.get(f.cls)
         if not cls:
             continue
